@@ -337,6 +337,18 @@ def _check_splice(case):
         return 1, "X", None, [Viol("splice-raised:" + type(r).__name__, f"{tag}: {r!r}")]
     a2, tg2 = r
     viols = []
+    # where the two recordings come from: the same audio with the main recording opened from a file (its params are what the wave module
+    # returns) and the inserted stretch built in memory - and the other way round - gives the same audio and the same textgrid
+    fnm, fns = os.path.join(scratch_dir(), "c18-splice-main.wav"), os.path.join(scratch_dir(), "c18-splice-seg.wav")
+    W.write_riff(fnm, list(MAIN), 2, RATE)
+    W.write_riff(fns, list(SPLICE), 2, RATE)
+    for how, mk_w, mk_sp in (("the recording opened from a file, the inserted audio built in memory", lambda: audio.Wav.open(fnm), lambda: mkwav(SPLICE, 2, RATE)),
+                             ("the recording built in memory, the inserted audio opened from a file", lambda: mkwav(MAIN, 2, RATE), lambda: audio.Wav.open(fns))):
+        stx, rx, _ = guarded(praatio_scripts.audioSplice, mk_w(), mk_sp(), tg.new(), "w", "NEW", ins / RATE, None if stop is None else stop / RATE, align)
+        if stx != "ok" or bytes(rx[0].frames) != bytes(a2.frames) or [ents(t) for t in rx[1].tiers] != [ents(t) for t in tg2.tiers]:
+            viols.append(Viol("splice-depends-on-where-the-audio-comes-from",
+                              f"{tag}: with {how} the call gives {rx if stx != 'ok' else 'another result'!r}; with both built in memory it succeeds"))
+            return 2, "!", None, viols
     if abs(a2.duration - tg2.maxTimestamp) > 1 / RATE + 1e-9:
         viols.append(Viol("splice-durations", f"{tag}: audio lasts {a2.duration!r}, textgrid ends at {tg2.maxTimestamp!r}"))
     wt = tg2.getTier("w")
